@@ -491,3 +491,182 @@ def substituted(ctx, poly, reg, what="?"):
                 acc = acc * Poly([(Fraction(1), (f,))])
         out += acc.terms
     return Poly(out)
+
+
+# ---------------------------------------------------------------------------
+# spin blocks
+
+
+def spin_blocks(poly, target, allowed):
+    """blocks (strings over 'ab' in the order of ``target``) on which ``poly`` does not vanish by the spin restrictions of
+    its factors: a block survives when, for at least one term, the summation indices can be given spins such that every
+    factor is on one of its own non-vanishing blocks.  ``allowed(factor)`` -> None (no restriction) or
+    predicate(tuple of spins of the indices of the factor, in the order of the factor)"""
+    import itertools
+    target = list(target)
+    out = set()
+    terms = []
+    for c, fs in poly.terms:
+        if c == 0:
+            continue
+        cons = []
+        for f in fs:
+            if f[0] == "denom":
+                continue
+            p = allowed(f)
+            if p is not None:
+                cons.append((_factor_indices(f), p))
+        free = sorted({i for idx, _ in cons for i in idx} - set(target))
+        terms.append((cons, free))
+    for block in itertools.product("ab", repeat=len(target)):
+        spin = {}
+        ok = True
+        for i, s in zip(target, block):
+            if spin.setdefault(i, s) != s:
+                ok = False  # a repeated target index cannot carry two spins
+        if not ok:
+            continue
+        for cons, free in terms:
+            hit = False
+            for fb in itertools.product("ab", repeat=len(free)):
+                sp = dict(spin)
+                sp.update(zip(free, fb))
+                if all(p(tuple(sp[i] for i in idx)) for idx, p in cons):
+                    hit = True
+                    break
+            if hit:
+                out.add("".join(block))
+                break
+    return out
+
+
+def _conserving(n_first):
+    return lambda s: s[:n_first].count("a") == s[n_first:].count("a")
+
+
+def expected_spin_blocks(ctx, name):
+    """non-vanishing blocks of the definition of ``name`` (default index order) by spin conservation of the integrals:
+    <pq||rs> needs as many alpha spins in pq as in rs, f_pq equal spins, orbital energies are unrestricted; a referenced
+    intermediate is restricted to the blocks obtained in the same way from its own definition"""
+    key = ("spin-expected", ctx.model.digest, name)
+    if key in _CACHE:
+        return _CACHE[key]
+    d = definition_sx(ctx, name, False)
+    if isinstance(d, _Typing):
+        raise AnalysisError(f"{name}: ill-typed definition, spin blocks undefined")
+    poly, target, _ = d
+
+    def allowed(f):
+        if f[0] == "eri":
+            return _conserving(2)
+        if f[0] == "fock":
+            return _conserving(1)
+        if f[0] == "e":
+            return None
+        if f[0] == "itmd":
+            blocks = expected_spin_blocks(ctx, f[1])
+            return lambda s: "".join(s) in blocks
+        raise AnalysisError(f"spin blocks: factor {f!r}")
+    r = spin_blocks(poly, target, allowed)
+    _CACHE[key] = r
+    return r
+
+
+class _SpinEval(_Eval):
+    """evaluates RegisteredIntermediate.allowed_spin_blocks; spatial_orbitals.allowed_spin_blocks is vocabulary,
+    modelled by its contract with the restrictions Obj.allowed_spin_blocks knows: ERI hard coded, t-amplitudes spin
+    conserving between the two halves, other registered intermediates by their own allowed_spin_blocks, tensors without
+    known blocks (Fock matrix, orbital energies) unrestricted"""
+
+    def __init__(self, ctx, reg):
+        super().__init__(ctx, reg)
+        self.sx.hooks["RegisteredIntermediate.tensor"] = self.h_tensor_obj
+        self.sx.hooks["spatial_orbitals:allowed_spin_blocks"] = self.h_spin_blocks
+
+    def h_tensor_obj(self, sx, a, kw):
+        b = sx.bind(self.model.fn(f"{MOD}:RegisteredIntermediate.tensor"), a, kw, False, True, True)
+        n, idx = self._validated(b["self"], b.get("indices"), "tensor")
+        if b.get("return_sympy") is not True:
+            raise AnalysisError(f"{self.current}: tensor() wrapped in Expr is outside the spin block model")
+        inf = self.reg[n]
+        kind = inf["tensor_kind"]
+        groups = [tuple(idx[p] for p in g) for g in inf["groups_pos"]]
+        classes = (kind,) + tuple(sorted(sx._bases(f"sympy_objects:{kind}")))
+        name = inf["tensor_name_literal"] or (_marker(inf["tensor_name_cfg"]) + inf["tensor_ext"])
+        if kind == "NonSymmetricTensor":
+            return Obj(None, f"tensor({n})", _classes=classes, indices=groups[0], idx=groups[0])
+        o = Obj(None, f"tensor({n})", _classes=classes, upper=groups[0], lower=groups[1], bra_ket_sym=inf["bra_ket_sym"])
+        o.attrs["name"] = name
+        o.attrs["idx"] = (groups[1] + groups[0]) if kind == "Amplitude" else (groups[0] + groups[1])
+        return o
+
+    def h_spin_blocks(self, sx, a, kw):
+        b = sx.bind(self.model.fn("spatial_orbitals:allowed_spin_blocks"), a, kw, False, True, True)
+        expr, tgt = b.get("expr"), b.get("target_idx")
+        if not isinstance(expr, Poly):
+            raise AnalysisError(f"{self.current}: allowed_spin_blocks({expr!r}, ..) outside the spin block model")
+        tgt = names(tgt if isinstance(tgt, str) else list(tgt))
+        try:
+            other = set(einstein_target(expr)) != set(tgt)
+        except AnalysisError:
+            other = True
+        if other:
+            raise Raised("ValueError", None, None)  # the library refuses terms with other target indices
+
+        def allowed(f):
+            if f[0] == "eri":
+                return _conserving(2)
+            if f[0] in ("fock", "e"):
+                return None
+            if f[0] == "itmd":
+                inf = self.reg[f[1]]
+                if inf["tensor_name_cfg"] == "gs_amplitude":
+                    if len(inf["default_idx"]) % 2:
+                        raise Raised("ValueError", None, None)
+                    return _conserving(len(inf["default_idx"]) // 2)
+                blocks = declared_spin_blocks(self.ctx, f[1])
+                if blocks is None:
+                    raise Raised("RuntimeError", None, None)
+                return lambda s: "".join(s) in blocks
+            raise AnalysisError(f"spin blocks: factor {f!r}")
+        for c, fs in expr.terms:
+            covered = set(tgt)
+            for f in fs:
+                if f[0] != "denom" and allowed(f) is not None:
+                    covered |= set(_factor_indices(f))
+            if c != 0 and {i for f in fs for i in _factor_indices(f)} - covered:
+                # an index that only sits on tensors without known blocks is never assigned a spin: the library gives up
+                raise Raised("RuntimeError", None, None)
+        return tuple(sorted(spin_blocks(expr, tgt, allowed)))
+
+
+def declared_spin_blocks(ctx, name):
+    """value of ``<name>.allowed_spin_blocks`` (set of block strings in default index order)"""
+    key = ("spin-declared", ctx.model.digest, name)
+    if key in _CACHE:
+        return _CACHE[key]
+    if ("busy",) + key in _CACHE:
+        raise AnalysisError(f"{name}: allowed_spin_blocks refers to itself")
+    _CACHE[("busy",) + key] = True
+    try:
+        reg = registry_sx(ctx)
+        ev = _SpinEval(ctx, reg)
+        m = ev.sx.find_method(f"{MOD}:{name}", "allowed_spin_blocks")
+        if m is None:
+            raise AnalysisError(f"{name}: allowed_spin_blocks not found")
+        o = ev.run(m[0], dict(self=_self_obj(reg, name)), f"{name}.allowed_spin_blocks")
+        if o.kind != "return":
+            if o.exc == "RuntimeError":
+                _CACHE[key] = None  # no blocks declared (the library cannot determine them)
+                return None
+            raise AnalysisError(f"{name}.allowed_spin_blocks raises {o.exc}")
+        v = o.value
+        n = len(reg[name]["default_idx"])
+        if not isinstance(v, (tuple, list, set, frozenset)) or \
+                any(not (isinstance(x, str) and len(x) == n and set(x) <= {"a", "b"}) for x in v):
+            raise AnalysisError(f"{name}.allowed_spin_blocks does not evaluate to spin block strings of length {n}: {v!r}")
+        r = set(v)
+    finally:
+        del _CACHE[("busy",) + key]
+    _CACHE[key] = r
+    return r
